@@ -21,6 +21,7 @@ import (
 
 	"github.com/richardwilkes/toolbox/errs"
 	"github.com/richardwilkes/toolbox/xio"
+	"github.com/richardwilkes/toolbox/xio/fs/internal"
 )
 
 // ExtractArchive extracts the contents of a tar archive at 'src' into the 'dst' directory.
@@ -63,6 +64,9 @@ func ExtractWithMask(tr *tar.Reader, dst string, mask os.FileMode) error {
 		if !strings.HasPrefix(path, rootWithTrailingSep) {
 			return errs.Newf("Path outside of root is not permitted: %s", hdr.Name)
 		}
+		if err = internal.Confine(root, path, hdr.Typeflag == tar.TypeReg); err != nil {
+			return err
+		}
 		switch hdr.Typeflag {
 		case tar.TypeReg:
 			if err = extractFile(tr, path, hdr.FileInfo().Mode().Perm(), mask); err != nil {
@@ -72,7 +76,14 @@ func ExtractWithMask(tr *tar.Reader, dst string, mask os.FileMode) error {
 			if err = os.MkdirAll(filepath.Dir(path), 0o755&mask); err != nil {
 				return errs.Wrap(err)
 			}
-			if err = os.Link(hdr.Linkname, path); err != nil {
+			linkTarget := filepath.Join(root, hdr.Linkname) //nolint:gosec // We check for path traversal below
+			if !strings.HasPrefix(linkTarget, rootWithTrailingSep) {
+				return errs.Newf("Path outside of root is not permitted: %s", hdr.Linkname)
+			}
+			if err = internal.Confine(root, linkTarget, false); err != nil {
+				return err
+			}
+			if err = os.Link(linkTarget, path); err != nil {
 				return errs.Wrap(err)
 			}
 		case tar.TypeSymlink:
